@@ -25,6 +25,13 @@ over the output directory of an earlier run (pipelines), every spelling of a val
 stated, as a number, prolog variants), the loop entered directly in every order, option spellings, refused
 calls.  The model of the command line tools now finds the files in the tree itself (Batch.discover,
 C17.discover_complete, C17.main_convert_file_gets_output); its list is compared with pathlib's.
+
+Round 6: the spelling of the single values inside a valid file (SHAPE_SCALAR: YAML tags - the !!python/unicode
+tag of files written under Python 2 among them -, quoting styles, block scalars, anchors / aliases, JSON escapes
+and exponent notation, key order, XML CDATA sections / character references / white space), also through a
+new interpreter in which such a file is the first YAML text the process reads (PyYAML's constructor tables are
+process-wide state); YAML / JSON neighbours the safe loader refuses (unknown tags, two documents, a structure
+that contains itself, NaN); ids of their own in old files.
 """
 import hashlib
 import io
@@ -87,7 +94,15 @@ TEXTS = [TEXT, u"note: measured on day one: see the lab book %(tag)s\n", u"{\"Do
          u'{"a": 1, "b": "%(tag)s"}\n', u'{"Document": null, "odml-version": "1.1"}\n',
          u'{"Document": {"sections": 5, "author": "%(tag)s"}, "odml-version": "1"}\n',
          u'{"Document": [], "odml-version": "1.1"}\n', u'{"odml-version": "1.1"}\n',
-         u'{"Document": {"author": "%(tag)s", "sections": [{"name": "s"}]}, "odml-version": "3"}\n']
+         u'{"Document": {"author": "%(tag)s", "sections": [{"name": "s"}]}, "odml-version": "3"}\n',
+         # (round 6) YAML the safe loader refuses or that is no tree: a tag nobody knows, a tag that asks for a
+         # Python object, two documents in one file, a structure that contains itself; JSON with NaN
+         u"Document:\n  author: !labbook %(tag)s\n  sections: []\nodml-version: '1'\n",
+         u"Document:\n  author: !!python/object:collections.OrderedDict {}\n  x: %(tag)s\nodml-version: '1.1'\n",
+         u"Document:\n  author: %(tag)s\n---\nDocument:\n  author: second\n",
+         u"Document: &d\n  author: %(tag)s\n  sections:\n  - *d\nodml-version: '1'\n",
+         u"Document: &d\n  author: %(tag)s\n  sections:\n  - *d\nodml-version: '1.1'\n",
+         u'{"Document": {"author": "%(tag)s", "sections": NaN}, "odml-version": "1"}\n']
 # XML of other vocabularies (kind "othervocab"): a web page, an RDF/XML export, a drawing, a root that
 # is odML in other letters, an odML root around foreign elements
 OTHER_XMLS = [OTHER_XML,
@@ -486,6 +501,8 @@ def render10_xml(doc, tag):
             if p.get("noise"):
                 elem("mapping", u"map#TAGQ", ind + "    ")
                 elem("synonym", u"syn", ind + "    ")
+                # (round 6) old files may carry ids of their own making: not the content, never in the way
+                elem("id", [u"not-a-uuid", u"12345"][len(p["name"]) % 2], ind + "    ")
             for i, v in enumerate(p["values"]):
                 attrs = u""
                 if i == 0 or not doc.get("first_only"):
@@ -544,6 +561,7 @@ def render10_dict(doc, tag):
         if p.get("noise"):
             out["mapping"] = _tq(u"map#TAGQ", tag)
             out["synonym"] = u"syn"
+            out["id"] = [u"not-a-uuid", u"12345"][len(p["name"]) % 2]
         out["values"] = [value(p, i, v) for i, v in enumerate(p["values"])]
         return out
 
@@ -628,6 +646,24 @@ SHAPE_PROLOG = {"xml": ["nodecl", "pi", "comment", "doctype", "crlf", "nonl"], "
                 "yaml": ["crlf", "docstart", "flow", "comment"]}
 XML_SHAPED = ("xml10", "xml10w", "xml11", "odml11", "xml11w")
 DICT_SHAPED = ("json10", "yaml10", "json11", "yaml11")
+# Round 6 - "scalar": how the single texts and numbers inside the document are written.  Every file format
+# has several spellings of one and the same value, and files written by other programs (or by the Python 2
+# generation of odML - the very files the version converter exists for) use them:
+#   YAML: strings carrying the tag Python 2 PyYAML gave to unicode objects (!!python/unicode; all of
+#         them, or a part - Python 2 mixed str and unicode), the standard tags written out (!!str, !!int,
+#         !!float, !!bool), every string double / single quoted, block scalars, anchors and aliases for
+#         equal entries, the keys of every mapping in the opposite order;
+#   JSON: every character of every string as a \uXXXX escape (surrogate pairs included), "/" as "\/",
+#         numbers in exponent notation, keys in the opposite order;
+#   XML : texts in CDATA sections, characters as numeric references, no white space between the
+#         elements, tabs for the indentation.
+# None of them changes what the file holds (checked here: the spelled text is read back with the plain
+# parsers of lxml / json / PyYAML - through a private loader class, the harness never registers
+# anything with PyYAML's shared loaders - and must give the same data, else the plain spelling is kept).
+SHAPE_SCALAR = {"xml": ["cdata", "charref", "oneline", "tabs"],
+                "json": ["uescape", "slash", "exp", "revkeys"],
+                "yaml": ["py2", "py2mix", "strtag", "dq", "sq", "block", "alias", "revkeys"]}
+PY2_TAG = u"tag:yaml.org,2002:python/unicode"
 
 
 def shape_family(kind):
@@ -650,10 +686,160 @@ def gen_shape(rng, kind):
         shape["ver"] = rng.choice(SHAPE_VER["xml" if fam == "xml" else "dict"])
     if rng.random() < 0.5:
         shape["prolog"] = rng.choice(SHAPE_PROLOG[fam])
+    if rng.random() < 0.45:
+        shape["scalar"] = rng.choice(SHAPE_SCALAR[fam])
     return shape or None
 
 
+def _xml_items(text):
+    """What an XML text holds, white space between the elements aside."""
+    from lxml import etree
+    root = etree.fromstring(text.encode("utf-8"))
+    return [(el.tag if isinstance(el.tag, str) else "?", (el.text or u"").strip(), (el.tail or u"").strip(),
+             sorted(el.attrib.items())) for el in root.iter() if isinstance(el.tag, str)]
+
+
+def scalar_xml(text, mode):
+    """The XML text with its character data spelled another way (see SHAPE_SCALAR)."""
+    import re
+    from xml.sax.saxutils import unescape
+
+    def chars(seg):
+        out = []
+        for i, ch in enumerate(seg):
+            if ord(ch) > 127 or ch in u"aeiou<>&\"'":
+                out.append((u"&#x%X;" if i % 2 else u"&#%d;") % ord(ch))
+            else:
+                out.append(ch)
+        return u"".join(out)
+
+    def piece(match):
+        raw = match.group(1)
+        body = raw.strip()
+        lead, trail = raw[:len(raw) - len(raw.lstrip())], raw[len(raw.rstrip()):]
+        plain = unescape(body, {u"&quot;": u'"', u"&apos;": u"'"})
+        if mode == "cdata":
+            body = u"<![CDATA[%s]]>" % plain.replace(u"]]>", u"]]]]><![CDATA[>")
+        else:
+            body = chars(plain)
+        return u">%s%s%s<" % (lead, body, trail)
+    if mode in ("cdata", "charref"):
+        new = re.sub(u">([^<>]*[^<>\\s][^<>]*)<", piece, text)
+    elif mode == "oneline":
+        new = re.sub(u"(?<!\\?)>\\s+<", u"><", text)         # (the XML declaration keeps its line)
+    elif mode == "tabs":
+        new = re.sub(u"(?m)^ +", lambda m: u"\t" * ((len(m.group(0)) + 1) // 2), text)
+    else:
+        return text
+    try:
+        strip_decl = lambda t: re.sub(u"^<\\?xml[^>]*\\?>", u"", t)
+        return new if _xml_items(strip_decl(new)) == _xml_items(strip_decl(text)) else text
+    except Exception:
+        return text
+
+
+class _Val(str):
+    """A string that is a value (not a key) of the dictionary form of a document."""
+
+
+def _mark(data, rev=False, share=None):
+    """Copy of `data` with the string values marked; keys in the opposite order (rev); equal lists /
+    dictionaries replaced by one and the same object (share: a dictionary), which PyYAML writes as an
+    anchor and aliases."""
+    if isinstance(data, dict):
+        items = [(k, _mark(v, rev, share)) for k, v in data.items()]
+        out = dict(reversed(items) if rev else items)
+    elif isinstance(data, list):
+        out = [_mark(v, rev, share) for v in data]
+    elif isinstance(data, str):
+        return _Val(data)
+    else:
+        return data
+    if share is not None:
+        return share.setdefault(fw.canon(out), out)
+    return out
+
+
+def scalar_yaml(data, mode, flow, allow_unicode, sort_keys):
+    """YAML text of `data` with the scalars spelled by `mode` (None if the mode does not apply)."""
+    import yaml
+    STR = u"tag:yaml.org,2002:str"
+
+    class Dumper(yaml.SafeDumper):
+        def process_tag(self):
+            # "strtag": the tag of every value is written out (!!str 'x', !!int '1', !!bool 'false')
+            if mode == "strtag" and isinstance(self.event, yaml.ScalarEvent) and not self.simple_key_context:
+                self.event.implicit = (False, False)
+            return yaml.SafeDumper.process_tag(self)
+
+    def rep_val(dumper, value):
+        text = str(value)
+        if mode == "py2" or (mode == "py2mix" and sum(ord(ch) for ch in text) % 2 == 0):
+            return dumper.represent_scalar(PY2_TAG, text)
+        if mode == "dq":
+            return dumper.represent_scalar(STR, text, style='"')
+        if mode == "sq":
+            return dumper.represent_scalar(STR, text, style="'")
+        if mode == "block" and len(text) > 1:
+            return dumper.represent_scalar(STR, text, style="|")
+        return dumper.represent_scalar(STR, text)
+    Dumper.add_representer(_Val, rep_val)
+
+    class Loader(yaml.SafeLoader):
+        pass
+    Loader.add_constructor(PY2_TAG, lambda loader, node: node.value)
+    marked = _mark(data, rev=mode == "revkeys", share={} if mode == "alias" else None)
+    try:
+        text = yaml.dump(marked, Dumper=Dumper, default_flow_style=True if flow else False,
+                         allow_unicode=allow_unicode, sort_keys=sort_keys and mode != "revkeys")
+        back = yaml.load(text, Loader=Loader)
+        return text if back == data and fw.canon(back) == fw.canon(data) else None
+    except Exception:
+        return None
+
+
+def scalar_json(data, mode, compact, raw_unicode):
+    """JSON text of `data` with the scalars spelled by `mode` (None if the mode does not apply)."""
+    import re
+    table = []
+
+    def walk(val):
+        if isinstance(val, dict):
+            items = [(k, walk(v)) for k, v in val.items()]
+            return dict(reversed(items) if mode == "revkeys" else items)
+        if isinstance(val, list):
+            return [walk(v) for v in val]
+        if isinstance(val, str) and mode in ("uescape", "slash") or \
+                isinstance(val, float) and mode == "exp" and val == val and abs(val) != float("inf"):
+            table.append(val)
+            return u"@@C17S%d@@" % (len(table) - 1)
+        return val
+
+    def spell(match):
+        val = table[int(match.group(1))]
+        if isinstance(val, float):
+            return u"%.17E" % val
+        if mode == "slash":
+            return json.dumps(val, ensure_ascii=not raw_unicode).replace(u"/", u"\\/")
+        units = val.encode("utf-16-be", "surrogatepass")
+        return u'"%s"' % u"".join(u"\\u%02x%02x" % (units[i], units[i + 1]) for i in range(0, len(units), 2))
+    try:
+        if u"@@C17S" in json.dumps(data):
+            return None
+        if compact:
+            text = json.dumps(walk(data), separators=(",", ":"), ensure_ascii=not raw_unicode)
+        else:
+            text = json.dumps(walk(data), indent=1, ensure_ascii=not raw_unicode) + u"\n"
+        text = re.sub(u'"@@C17S(\\d+)@@"', spell, text)
+        back = json.loads(text)
+        return text if back == data and fw.canon(back) == fw.canon(data) else None
+    except Exception:
+        return None
+
+
 def shape_xml(text, shape, old):
+    if shape.get("scalar"):
+        text = scalar_xml(text, shape["scalar"])
     ver = shape.get("ver")
     if old and ver:
         root = {"absent": u"<odML>", "1.0": u'<odML version="1.0">', "sq": u"<odML version='1'>",
@@ -694,7 +880,14 @@ def shape_dict(kind, data, shape, raw_unicode):
         else:
             data["odml-version"] = {"1.0": u"1.0", "int": 1, "float": 1.0}[ver]
     pro = shape.get("prolog")
-    if kind in ("json10", "json11"):
+    text = None
+    if shape.get("scalar") and kind in ("json10", "json11"):
+        text = scalar_json(data, shape["scalar"], pro == "compact", raw_unicode)
+    elif shape.get("scalar"):
+        text = scalar_yaml(data, shape["scalar"], pro == "flow", bool(raw_unicode), ver != "first")
+    if text is not None:
+        pass
+    elif kind in ("json10", "json11"):
         if pro == "compact":
             text = json.dumps(data, separators=(",", ":"), ensure_ascii=not raw_unicode)
         else:
@@ -1105,7 +1298,9 @@ class C17(fw.Check):
             "converter v1_1 / odml -> command line tools); spellings of valid files (version absent / 1.0 / a "
             "number, prolog variants, CRLF, flow style); the loop of the command line tools entered directly with "
             "shuffled lists; option spellings; the tool started inside the searched directory; refused calls "
-            "between proper runs. "
+            "between proper runs. Spellings of the single values (YAML tags incl. python/unicode, quoting, block "
+            "scalars, aliases, JSON escapes / exponents, key order, XML CDATA / character references / white space) "
+            "for every valid kind, both tools and the converter, also in a newly started interpreter. "
             "Non-trivial = "
             "at least one output was produced and at least one file was skipped / refused, or the tree is "
             "nested; distinct = distinct canonical JSON of the case.")
@@ -1427,6 +1622,95 @@ class C17(fw.Check):
         cases.append(cli("rdf", [f("big", "xml11", "t1", doc=big), f("bad", "text", "t2")]))
         return cases
 
+    def systematic_round6(self):
+        """Fixed cases along the dimensions added after seeded round 6 (see design.d/C17.md): every spelling
+        of the scalars (SHAPE_SCALAR) of every valid kind, with the small fixed document and with the
+        document that holds every dtype and boundary value, between unconvertible files, through both
+        command line tools and the format converter; combined with the other spellings of round 5."""
+        cases = []
+        f = lambda stem, kind, tag, sub="", **kw: dict({"stem": stem, "kind": kind, "tag": tag, "sub": sub}, **kw)
+        cli = lambda tool, files, **kw: dict({"stream": "cli", "tool": tool, "recursive": False, "explicit_out": True,
+                                              "in_name": "in", "files": files}, **kw)
+        fc = lambda fmt, files, **kw: dict({"stream": "fc", "fmt": fmt, "recursive": True, "explicit_out": True,
+                                            "in_name": "in", "entry": "convert_dir", "trailing_sep": False,
+                                            "files": files}, **kw)
+        bad = [f("bad1", "malformed", "t1"), f("bad2", "text_json", "t2"), f("bad3", "text_yaml", "t3"),
+               f("bad4", "empty_yaml", "t4")]
+        # a document with equal entries (anchors / aliases), a "/" and text beyond the basic plane
+        rep = {"author": u"J. Doe / TAGQ", "version": u"1", "date": u"2008-07-07", "native": True, "first_only": False,
+               "value_last": False, "raw_unicode": True,
+               "sections": [{"name": u"s_%d" % i, "type": u"rec/ording", "definition": u"same text", "sections": [],
+                             "props": [{"name": u"p%d" % j, "dtype": "int", "values": [1, 1, 7], "unit": u"mV",
+                                        "uncertainty": None, "definition": None} for j in range(2)] +
+                                      [{"name": u"q", "dtype": "string", "values": [u"é€ \U0001F600 x", u"a/b", u"a/b"],
+                                        "unit": None, "uncertainty": None, "definition": u"same text"},
+                                       {"name": u"r", "dtype": "float", "values": [2.5, 1e-07, 2.5], "unit": None,
+                                        "uncertainty": 0.5, "definition": None}]}
+                            for i in range(2)]}
+        for kind in DOC_KINDS:
+            fam = shape_family(kind)
+            modes = SHAPE_SCALAR[fam]
+            small = [f("%s_%s" % (kind, m), kind, "t%d" % i, shape={"scalar": m}) for i, m in enumerate(modes)]
+            # ... together with the version / prolog spellings of round 5
+            mixed = [f("mix%d" % i, kind, "u%d" % i, doc=rep, shape=dict(
+                {"scalar": m, "prolog": SHAPE_PROLOG[fam][i % len(SHAPE_PROLOG[fam])]},
+                **({"ver": SHAPE_VER["xml" if fam == "xml" else "dict"][i % 5]} if kind in OLD_KINDS else {})))
+                     for i, m in enumerate(modes)]
+            full = [f("full_%s" % m, kind, "t1", doc=full_doc(fam != "xml"), shape={"scalar": m}) for m in modes]
+            for tool in ("convert", "rdf"):
+                if kind in NEW_KINDS and tool == "convert":
+                    continue
+                cases.append(cli(tool, small[:2] + bad + small[2:]))
+                cases.append(cli(tool, bad[:2] + mixed + bad[2:], recursive=True, explicit_out=False))
+                # (the large document costs a second per YAML file: the spellings that change the most)
+                heavy = [x for x in full if (tool == "convert" and fam != "yaml") or x["shape"]["scalar"] in
+                         ("py2", "strtag", "alias", "uescape", "exp", "cdata", "charref")]
+                if fam == "yaml" and tool == "rdf":
+                    heavy = heavy[:2] if kind in OLD_KINDS else heavy[::2]
+                cases.append(cli(tool, heavy + bad[1:3]))
+            if fam == "xml":
+                fmts = ["v1_1"] if kind in OLD_KINDS else ["odml", "turtle", "xml"]
+                for fmt in fmts:
+                    cases.append(fc(fmt, small + mixed + full[:2], explicit_out=fmt != "odml"))
+        # file endings of the format converter's inputs (none, upper case, several dots) x directory names
+        # with dots at every level (input, explicit / made-up output directory, mirrored sub-directory):
+        # both dimensions were random only, their crossing a matter of the seed
+        for i, ext in enumerate(FC_EXTS):
+            fmt = ["odml", "turtle", "v1_1", "xml", "nt"][i % 5]
+            good = "xml10" if fmt == "v1_1" else "xml11"
+            cases.append(fc(fmt, [f("meta", good, "t1", ext=ext), f("trial", good, "t2"),
+                                  f("deep", good, "t3", "s.1/2020.01.15", ext=ext)],
+                            in_name=["in.d", "rec.2020"][i % 2], explicit_out=i % 3 != 0, out_name="out.v%d" % i,
+                            entry=["convert_dir", "convert"][i % 2]))
+        # the loop entered directly: a file with tagged scalars first, last, between the others
+        trio = [f("y0", "yaml10", "t1", shape={"scalar": "py2"}), f("y1", "yaml10", "t2"), f("ybad", "text_yaml", "t3"),
+                f("y2", "yaml11", "t4", shape={"scalar": "py2mix"}), f("j1", "json10", "t5", shape={"scalar": "uescape"}),
+                f("x1", "xml10", "t6", shape={"scalar": "cdata"})]
+        for tool in ("convert", "rdf"):
+            for perm in range(4):
+                cases.append(cli(tool, trio, entry="run_conversion", perm=perm))
+        # Process-level state: PyYAML keeps its tag constructors in class-level tables that every user of
+        # the yaml module in the process shares, and the check itself runs hundreds of conversions in one
+        # process.  So the same files also go through a *new* interpreter (ordinary UTF-8 environment and
+        # ASCII locale), where a file with tagged scalars is the first YAML text the process ever reads -
+        # by odmlconvert, by odmltordf (old and current version), next to plain files.
+        wide = {"author": u"René TAGQ", "version": None, "date": None, "native": False, "raw_unicode": True,
+                "sections": [{"name": u"sec_TAGQ", "type": u"mainsec", "definition": u"déf", "sections": [],
+                              "props": [{"name": u"prop_TAGQ", "dtype": "string", "values": [u"é€", u"zero"],
+                                         "unit": None, "uncertainty": None, "definition": None}]}]}
+        fresh = [
+            [cli("convert", [f("y0", "yaml10", "t1", shape={"scalar": "py2"}), f("bad", "text_yaml", "t2"),
+                             f("x", "xml10", "t3")])],
+            [cli("rdf", [f("y0", "yaml10", "t1", doc=wide, shape={"scalar": "py2mix"}), f("bad", "empty_yaml", "t2")])],
+            [cli("rdf", [f("y1", "yaml11", "t1", shape={"scalar": "py2"}), f("y2", "yaml10", "t2", shape={"scalar": "strtag"})]),
+             cli("convert", [f("y3", "yaml10", "t3", doc=wide, shape={"scalar": "py2", "ver": "absent"})])],
+            [cli("convert", [f("j", "json10", "t1", shape={"scalar": "uescape"}), f("y", "yaml10", "t2", shape={"scalar": "alias"}),
+                             f("x", "xml10", "t3", shape={"scalar": "charref"})]),
+             fc("v1_1", [f("x", "xml10", "t3", shape={"scalar": "cdata"})])]]
+        for i, subs in enumerate(fresh):
+            cases.append({"stream": "locale", "cases": subs, "hashseed": i, "plain_env": i % 2 == 0})
+        return cases
+
     def generate(self, tier, rng):
         cases = []
         ncli = 60 if tier == "quick" else 2500
@@ -1547,6 +1831,7 @@ class C17(fw.Check):
                     prev = files
                 cases.append({"stream": "runs", "pre": [], "runs": runs})
         cases += self.systematic_round5()
+        cases += self.systematic_round6()
         nruns = 30 if tier == "quick" else 1200
         for _ in range(nruns):
             cases.append(self.gen_runs(rng))
@@ -1622,6 +1907,8 @@ class C17(fw.Check):
                 % os.path.dirname(os.path.abspath(__file__)))
         env = dict(os.environ, PYTHONUTF8="0", PYTHONCOERCECLOCALE="0", LC_ALL="C", LANG="C",
                    ODML_REPO=fw.REPO, PYTHONDONTWRITEBYTECODE="1")
+        if case.get("plain_env"):                  # a new interpreter in the environment of the check itself
+            env = dict(os.environ, ODML_REPO=fw.REPO, PYTHONDONTWRITEBYTECODE="1")
         if case.get("hashseed") is not None:       # process-level state: the order of sets / dicts of str
             env["PYTHONHASHSEED"] = str(case["hashseed"])
         proc = subprocess.run([sys.executable, "-c", code], input=json.dumps(case).encode("ascii"),
